@@ -46,7 +46,7 @@ def run_model(tmp, queries):
     path = os.path.join(tmp, "model.%d.in" % len(os.listdir(tmp)))
     with open(path, "w") as f:
         f.write("\n".join(queries) + "\n")
-    rc, so, se = common.sh([MODEL, "run", path], timeout=600)
+    rc, so, se = common.sh([os.path.join(tmp, "ffimodel-run"), "run", path], timeout=600)
     ans = so.splitlines()
     if rc != 0 or len(ans) != len(queries):
         raise RuntimeError("model driver failed rc=%s answers=%d/%d %s" % (rc, len(ans), len(queries), se[-500:]))
@@ -349,6 +349,10 @@ def run(ctx):
         return
     tmp = tempfile.mkdtemp(prefix="c17.", dir="/var/tmp")
     try:
+        # private copy of the model runner: build/ocaml/ffi/run is re-linked whenever somebody
+        # rebuilds the OCaml side
+        with common.Lock("ocaml"):
+            shutil.copy2(MODEL, os.path.join(tmp, "ffimodel-run"))
         _run(ctx, tmp, nevrun)
     finally:
         shutil.rmtree(tmp, ignore_errors=True)
